@@ -629,7 +629,7 @@ func buildChunksGroup() ([]*target, error) {
 	}
 	plain := &target{
 		name: "chunk-restore", doc: "input = chunk 0 of a real restore in progress with the honest manifest: 0 digest mismatch, 1 digest ok but stream undecodable, 2 proof verification ran, 3 restored",
-		seeds: seeds[:1], wantDepth: 3, cborPercent: -1,
+		seeds: seeds[:1], wantDepth: 3, cborPercent: -1, weight: 1, // the digest check stops almost every mutant: the +digest variants carry the search
 		run: func(in []byte) outcome { return chunkOutcome(f.restore(f.meta, 0, in)) },
 	}
 	digest := &target{
